@@ -35,6 +35,7 @@ pub fn attr_alphabet(tid: u128) -> Vec<Op> {
     v.push(t(Kind::Software, b"x"));
     v.push(t(Kind::AlternateDomain, b"example.org"));
     v.push(t(Kind::AlternateDomain, b"a.b"));
+    v.push(t(Kind::AlternateDomain, b"trailing.space "));
     v.push(t(Kind::ErrorCode, &[0, 0, 4, 20, b'U', b'n', b'k']));
     v.push(t(Kind::ErrorCode, &[0, 0, 3, 0]));
     v.push(t(Kind::ErrorCode, &[0, 0, 6, 99, b'x', b'y']));
